@@ -4,6 +4,7 @@ from hypothesis import strategies as st
 from . import boot                                    # noqa: F401
 from .runner import CaseResult, Part
 from . import execsim
+from . import fluxsim
 
 PID  = 'C07'
 RULE = ('cases = 1-4 tasks in 1-3 bulks (scripted exit code, optional launch fault point: no launcher / '
@@ -227,10 +228,13 @@ def parts(tier):
         Part('startup_report', enum=startup_cases),
         Part('limit_after_startup_report', enum=limit_cases),
         Part('launch_bursts', enum=burst_cases),
+        Part('flux_pipeline', fluxsim.cases(), quick=300, thorough=2500),
     ]
 
 
 def normalise(case):
+    if isinstance(case, dict) and case.get('kind') == 'fluxsim':
+        return fluxsim.normalise(case)
     try:
         case = dict(case)
         case['bulks'] = [b for b in case.get('bulks', []) if b]
@@ -254,6 +258,8 @@ def normalise(case):
 
 
 def run_case(case):
+    if case.get('kind') == 'fluxsim':
+        return fluxsim.run_case_for(PID, case)
     if case.get('spawner') == 'NOOP':
         # NOOP has no cancel / timeout / launch faults: success path only
         case = dict(case)
